@@ -191,8 +191,12 @@ func runC17(c *core.Ctx) {
 		}
 		cmd := c17Cmds[j.cmd]
 		args := append(append([]string{}, pre...), cmd...)
-		res := srv.Fault(run.FaultJob{Args: args, SinkLimit: j.k}, nil)
+		// the kind of error the sink returns rotates: a made-up error value and the real ones of a pipe whose reader is
+		// gone, a full device and a closed file (what a command does with an error must not depend on its kind)
+		kind := []string{"", "epipe", "enospc", "closed"}[(j.k+j.cmd)%4]
+		res := srv.Fault(run.FaultJob{Args: args, SinkLimit: j.k, SinkKind: kind}, nil)
 		c.Eval(1)
+		c.Count("sink_error_kind_"+map[string]string{"": "synthetic", "epipe": "EPIPE", "enospc": "ENOSPC", "closed": "closed_file"}[kind], 1)
 		name := c17Name(cmd)
 		files := worlds[j.world]
 		if j.world == bigIdx {
@@ -201,7 +205,7 @@ func runC17(c *core.Ctx) {
 		if j.world == longIdx || j.world == long2Idx {
 			files = map[string]string{"note": "names of 4096, 5000, 6000, 8200 and 9000 bytes (longer than one output buffer), see runC17"}
 		}
-		doc := caseDoc{Files: files, Args: args, Note: fmt.Sprintf("sink fails from byte %d of %d", j.k, j.full),
+		doc := caseDoc{Files: files, Args: args, Note: fmt.Sprintf("sink fails from byte %d of %d with error kind %q", j.k, j.full, kind),
 			Observed: map[string]any{"exit": res.Exit, "err": res.Err, "accepted": res.Accepted, "sink_errors": res.SinkErrs, "writes": res.Writes, "panic": clip(res.Panic, 1000), "died": clip(res.Died, 1000)}}
 		lintFindings := cmd[0] == "lint" && strings.Contains(strings.Join(cmd, " "), "bad.yaml")
 		switch {
